@@ -144,6 +144,7 @@ def _camel_to_snake(m):
 
 
 SUBS_P = [(r"^None$", "()"), (r"Result::Ok\{0: \(\)\}", "()"), (r"^Result::Ok\{0: (.*)\}$", r"\1"), (r"Result::Err\{0: ErrorCode::(\w+)\{\}\}", lambda m: "Result::Err{0: %s}" % _camel_to_snake(m)),
+          (r"Result::Err\.0 = ErrorCode::(\w+)\{\}", lambda m: "Result::Err.0 = %s" % _camel_to_snake(m)),
           (r"fail\((\w+)\)", lambda m: "fail(%s)" % _camel_to_snake(m)), (r"\?", "")]
 SUBS_S = [(r"^None$", "()"), (r"Result::Ok\{0: \(\)\}", "()"), (r"^Result::Ok\{0: (.*)\}$", r"\1"), (r"\?", ""), (r"Facade\b", "")]
 
